@@ -12,8 +12,8 @@ TECH = ('symbolic execution of rustc MIR (mirsym) + z3 over symbolic Files/Deps 
 
 PLAN = {
     'C02': ['kernel', 'quiet_memo', 'two_phase'],
-    'C03': ['kernel', 'should_build', 'stamp', 'unlocked'],
-    'C05': ['kernel', 'set_failed', 'should_build'],
+    'C03': ['kernel', 'should_build', 'stamp', 'unlocked', 'record'],
+    'C05': ['kernel', 'set_failed', 'should_build', 'record'],
     'C12': ['kernel', 'cycles'],
     'C14': ['kernel', 'ifcreate_always'],
     'C17': ['kernel', 'roles', 'ood'],
@@ -52,6 +52,11 @@ def main(pid):
                 depsobl.cycles_facts(chk)
             elif ob == 'ifcreate_always':
                 depsobl.ifcreate_always_facts(chk)
+            elif ob == 'record':
+                from specs import buildjob, buildworld
+                buildworld.install(eng)
+                chk.assumptions += buildjob.ASSUMPTIONS
+                buildjob.record_new_state_facts(chk, pid)
             elif ob == 'roles':
                 depsobl.roles_partition(chk)
             elif ob == 'ood':
